@@ -6,7 +6,7 @@ from hypothesis import strategies as st
 
 from job_shop_lib.dispatching import Dispatcher, HistoryObserver
 
-from .. import gen
+from .. import gen, obs
 from .. import fingerprint as fp
 from ..lib import Driver, build_instance, ref
 
@@ -39,7 +39,7 @@ def strategy(tier):
         max_machines=6 if big else 5,
         max_total=36 if big else 25,
         benchmarks=("ft06", "la01") if big else ("ft06",),
-        big_ok=True,
+        big_ok=2,
     )
     seq = st.fixed_dictionaries(
         {
@@ -47,6 +47,7 @@ def strategy(tier):
             "inst": inst,
             "history": gen.histories(),
             "stop": st.one_of(st.none(), st.none(), st.integers(0, 36)),
+            "observers": gen.weighted((2, st.just([])), (1, obs.feature_configs(min_size=1, max_size=3))),
         }
     )
     small = gen.instances(
@@ -129,6 +130,10 @@ def _sequence(case, ctx):
     drv = Driver(inst, None)
     d = drv.dispatcher
     hist = HistoryObserver(d)
+    # bookkeeping must match whatever observers are attached
+    if not any(x > 2**24 for r in inst["durations"] for x in r):
+        for cfg in case.get("observers", []):
+            obs.make_feature_observer(d, cfg)
     model = drv.model
     n = model.n_ops
     steps = n if stop is None else min(stop, n)
@@ -178,6 +183,7 @@ def _sequence(case, ctx):
         "history-observer",
         "HistoryObserver.history differs from the dispatch sequence",
     )
+    hist_copy = list(hist.history)
     # (a) replay on a fresh dispatcher over an independently rebuilt instance
     inst2 = build_instance(inst)
     d2 = Dispatcher(inst2)
@@ -197,8 +203,15 @@ def _sequence(case, ctx):
             "replay-history-observer",
             f"replay of HistoryObserver.history differs at step {k}",
         )
-    # (b) replay on the same dispatcher after reset
+    # (b) replay on the same dispatcher after reset; the recorded history is
+    # the list object the observer handed out before the reset
+    kept = hist.history
     d.reset()
+    ctx.check(
+        [fp.sop(x) for x in kept] == [fp.sop(x) for x in list(hist_copy)],
+        "recorded-history-lost-on-reset",
+        f"the history recorded before reset() changed when the dispatcher was reset: {len(kept)} of {len(hist_copy)} entries left",
+    )
     check_tracking(ctx, inst, d, ref(inst), "after reset")
     ctx.check(hist.history == [], "reset-history", "history not cleared by reset")
     m2 = ref(inst)
